@@ -91,7 +91,7 @@ theorem minDisBrute_eq {DX DY : Mat} {n m : ℕ} [NeZero m] (hn : DX.length = n)
       obtain ⟨i, rfl⟩ := List.mem_ofFn.1 hy
       exact (g i).isLt
     · intro x
-      simp [List.getD, List.getElem?_ofFn, x.isLt]
+      simp [List.getD, x.isLt]
   have hlist : ∀ l ∈ allMaps m n, ∃ g : Fin n → Fin m,
       disList DX DY l = dis (matFn DX n) (matFn DY m) g := by
     intro l hl
